@@ -47,4 +47,14 @@ resource.setrlimit(resource.RLIMIT_CPU, (cpu_s, cpu_s + 1))
 resource.setrlimit(resource.RLIMIT_AS, (mem_mb << 20, mem_mb << 20))
 sys.addaudithook(hook)
 sys.argv = [tool] + args
-runpy.run_module(tool, run_name="__main__", alter_sys=True)
+try:
+    runpy.run_module(tool, run_name="__main__", alter_sys=True)
+except SystemExit:
+    raise
+except BaseException as e:  # noqa
+    # the built-in class the error belongs to (a project-specific subclass of ValueError is a ValueError), for the harness
+    for c in type(e).__mro__:
+        if c.__module__ == "builtins":
+            log.write("X\t%s\n" % c.__name__)
+            break
+    raise
